@@ -290,7 +290,8 @@ def extract(tree):
             raise ExtractError("%s: registration no longer records the current generation (`%s`)" % (fn, pat))
     if "to.when=ts_delta(ts_now(),sec);" not in sq(body(ev, "janet_sleep_await")):
         raise ExtractError("janet_sleep_await: `to.when = ts_delta(ts_now(), sec)` not recognised")
-    wake_sites(tree)          # completeness: raises when a new, unclassified wake-up source appears
+    # completeness of the wake-up sources: tools/gen/waitcb.py lists every call site, Lean classifies them
+    # (Props/C07 every_wake_site_classified); `wake_sites` above is kept for reference only
     return c
 
 
